@@ -1,7 +1,7 @@
 (** C12 — Destination I/O failures surface from the failing call; finalize is
     retryable.  Statements only; proofs in Proofs/WriterFaults.v. *)
 From SF Require Import Model.Bytes Model.F64 Model.ShapeType Model.Shapes Model.Res Model.Encode Model.Writer.
-From SF Require Import Proofs.WriterCore Proofs.WriterInv Proofs.WriterFaults.
+From SF Require Import Proofs.WriterCore Proofs.WriterInv Proofs.WriterFaults Proofs.WriterRecover.
 Open Scope Z_scope.
 
 (** Every writer call is a straight-line list of destination operations with
@@ -23,14 +23,14 @@ Print Assumptions C12_fault_surfaces.
 (** finalize on destinations with any fault plan, in any state whose record
     regions are intact ([WBuf]: what every history of calls, failed ones
     included, maintains): either it succeeds and both files are complete, or
-    it returns the injected error, the writer stays dirty and unchanged and
-    the record regions stay intact. *)
+    it returns the injected error, the writer stays dirty and unchanged but
+    for the `finalize_interrupted` mark, and the record regions stay intact. *)
 Theorem C12_finalize_any : forall (hs : bool) (st : wstate) (w : world) (ss : list shape),
   WBuf hs st w ss -> ws_dirty st = true ->
   exists r st1 w1, w_finalize st w = (r, st1, w1) /\
     ((r = Ok tt /\ ws_dirty st1 = false /\ d_buf (w_shp w1) = final_shp ss /\
       d_buf (w_shx w1) = (if hs then final_shx ss else [])) \/
-     (r = Err EIoInjected /\ st1 = st /\ WBuf hs st w1 ss)).
+     (r = Err EIoInjected /\ st1 = set_interrupted st true /\ WBuf hs st1 w1 ss)).
 Proof. exact finalize_any. Qed.
 Print Assumptions C12_finalize_any.
 
@@ -45,11 +45,27 @@ Theorem C12_retry : forall (hs : bool) (st : wstate) (w : world) (ss : list shap
 Proof. exact finalize_retry. Qed.
 Print Assumptions C12_retry.
 
+(** More than the retry: after a finalize that failed — at any operation of
+    either destination — and once the destinations work, EVERY continuation of
+    calls (more writes, accepted or rejected, finalizes anywhere) returns what
+    it returns in the undisturbed run ([expected_results]), and dropping the
+    writer leaves exactly the files of the undisturbed history.  (Found false
+    on the pinned tree: the first write after the failed finalize landed
+    inside the header; repaired by 276a00f.) *)
+Theorem C12_failed_finalize_harmless : forall (hs : bool) (st : wstate) (w : world) (ss : list shape),
+  WBuf hs st w ss -> ws_dirty st = true -> Forall (fun x => type_of x <> TNull) ss ->
+  forall st1 w1, w_finalize st w = (Err EIoInjected, st1, w1) ->
+  forall cs, Forall call_ok cs ->
+  exists st2 w2, run_calls cs st1 (heal w1) = (expected_results ss cs, st2, w2) /\
+    files (w_drop st2 w2) = (final_shp (accepted_acc ss cs), if hs then final_shx (accepted_acc ss cs) else []).
+Proof. exact failed_finalize_harmless. Qed.
+Print Assumptions C12_failed_finalize_harmless.
+
 (** Every state reached by a fault-free history satisfies [WBuf], whatever
-    fault plan is armed afterwards. *)
-Theorem C12_reachable : forall (hs : bool) (st : wstate) (w : world) (ss : list shape),
-  WInv hs st w ss -> WBuf hs st w ss.
-Proof. exact WInv_WBuf. Qed.
+    fault plan is armed on either destination afterwards. *)
+Theorem C12_reachable : forall (hs : bool) (st : wstate) (w : world) (ss : list shape) (f1 f2 : option (nat * bool)),
+  WInv hs st w ss -> WBuf hs st (arm w f1 f2) ss.
+Proof. intros hs st w ss f1 f2 H. apply arm_WBuf, WInv_WBuf, H. Qed.
 Print Assumptions C12_reachable.
 
 (** Dropping a writer whose destination is failing returns normally: `Drop`
@@ -76,4 +92,15 @@ Example C12_example :
     = [Ok tt; Err EIoInjected; Ok tt; Ok tt] /\
   files (snd (run_history false w0 [CWrite p; CFinalize; CHeal; CFinalize] EDrop))
     = files (snd (run_history false world0 [CWrite p] EDrop)).
+Proof. split; vm_compute; reflexivity. Qed.
+
+(** ...and the same with a write between the failed finalize and the next one. *)
+Example C12_example_write_after_failed_finalize :
+  let p := SPoint XY (mkpt 1 2 0 0) in
+  let q := SPoint XY (mkpt 3 4 0 0) in
+  let w0 := world_with_fault Shp 23 false in
+  fst (run_history true w0 [CWrite p; CFinalize; CHeal; CWrite q; CFinalize] EDrop)
+    = [Ok tt; Err EIoInjected; Ok tt; Ok tt; Ok tt] /\
+  files (snd (run_history true w0 [CWrite p; CFinalize; CHeal; CWrite q; CFinalize] EDrop))
+    = files (snd (run_history true world0 [CWrite p; CWrite q] EDrop)).
 Proof. split; vm_compute; reflexivity. Qed.
